@@ -106,7 +106,13 @@ Lemma live_blob_removed_witness :
     aget 4294967297 (d_blobs d) = Some b /\ b_deleted b = 0 /\ b_expires b = 0 /\
     dapply d 6 (CFinishDelete 0 [4294967297]) = Some (d', [1; e_NoError]) /\
     aget 4294967297 (d_blobs d') = None.
-Proof. do 4 eexists. repeat split; vm_compute; reflexivity. Qed.
+Proof.
+  pose (d := match dapply_all d_init (firstn 5 f18_cmds) with Some (d, _) => d | None => d_init end).
+  pose (r := match dapply_all d_init (firstn 5 f18_cmds) with Some (_, r) => r | None => [] end).
+  pose (d' := match dapply d 6 (CFinishDelete 0 [4294967297]) with Some (d', _) => d' | None => d_init end).
+  pose (b := match aget 4294967297 (d_blobs d) with Some b => b | None => mkBlob 9 9 9 9 9 9 9 [] end).
+  exists d, d', r, b. repeat split; vm_compute; reflexivity.
+Qed.
 
 (* ---------- (d) versions ---------- *)
 
@@ -168,4 +174,11 @@ Lemma commit_lowers_version_witness :
     aget 4294967297 (d_blobs d) = Some b /\ aget 4294967297 (d_blobs d') = Some b' /\
     nth_error (b_tracts b) 0 = Some t /\ nth_error (b_tracts b') 0 = Some t' /\
     t_version t = 3 /\ t_version t' = 2.
-Proof. do 6 eexists. repeat split; vm_compute; reflexivity. Qed.
+Proof.
+  pose (d := match dapply_all d_init (firstn 7 f6_cmds) with Some (d, _) => d | None => d_init end).
+  pose (d' := match dapply d 8 (CCommitRS (2147483649, 1) c_ClassRS63 [1; 2; 3; 4; 5; 6; 7; 8; 9]
+                 [[mkET 4294967297 0 0 100 2]; []; []; []; []; []]) with Some (d', _) => d' | None => d_init end).
+  pose (bb := fun x : dstate => match aget 4294967297 (d_blobs x) with Some b => b | None => mkBlob 9 9 9 9 9 9 9 [] end).
+  pose (tt := fun x : dstate => match nth_error (b_tracts (bb x)) 0 with Some t => t | None => mkTract [] 99 None None None None end).
+  exists d, d', (bb d), (bb d'), (tt d), (tt d'). repeat split; vm_compute; reflexivity.
+Qed.
